@@ -35,7 +35,10 @@ RULE = ("Runs: the runs of C01's enumeration (feature trees x step-outcome devia
         "e-acute, CR, TAB}: every (slot, atom) single on seven hostile shapes (mixed outcomes; outline + rule + "
         "backgrounds + doc-string/table; one raising hook of every scenario-level kind; raising cleanups; raising "
         "before_feature / after_feature / before_all) x show_skipped on/off, every pair of (slot, atom) on a small shape "
-        "(quick: one atom per class). Switches: all 128 combinations of the seven behave.reporter.junit.* userdata "
+        "(quick: one atom per class). Composite atoms (the reporter's rewriting passes composed: ']]>' split at either "
+        "inner position by ESC[<n>m / ESC[<n>A, by a C0 control, U+FFFE or a lone ESC; ']]&' ESC[0m 'gt;'; an ANSI escape "
+        "split by a control character or by another escape; & < \" next to removed text: 18 atoms) x ten slots, single, on "
+        "the hostile shapes (quick: the two shapes that hold all slots). Switches: all 128 combinations of the seven behave.reporter.junit.* userdata "
         "booleans on three shapes x show_skipped on/off. Addressing: three real feature files in a scratch directory "
         "(features/a.feature, features/sub/b.feature, other/c.feature) run by the real Runner (setup_paths sets "
         "config.base_dir, real feature collection) x 17 ways of naming them on the command line (none, directory, "
@@ -86,7 +89,32 @@ ATOMS = (
     ("cr", u"\r", "line-break"),
     ("tab", u"\t", "tab"),
 )
-ATOM = {a[0]: a for a in ATOMS}
+# Composite atoms: every rewriting pass of the reporter (ANSI strip_escapes: ESC[<n>m / ESC[<n>A; invalid-character
+# filter; ']]>' escape; the attribute escaping of ElementTree) composed with the others - text whose treatment by one
+# pass creates (or would create, in another order of the passes) the token that another pass is looking for.
+ESC = u"\x1b"
+COMPOSITES = (
+    ("cd_m1", u"]" + ESC + u"[31m]>", "split-cdata-end:ansi"),
+    ("cd_m2", u"]]" + ESC + u"[0m>", "split-cdata-end:ansi"),
+    ("cd_A1", u"]" + ESC + u"[1A]>", "split-cdata-end:ansi"),
+    ("cd_A2", u"]]" + ESC + u"[2A>", "split-cdata-end:ansi"),
+    ("cd_mm", u"]" + ESC + u"[1m]" + ESC + u"[0m>", "split-cdata-end:ansi"),
+    ("cd_c1", u"]\x01]>", "split-cdata-end:control"),
+    ("cd_c2", u"]]\x01>", "split-cdata-end:control"),
+    ("cd_n2", u"]]\ufffe>", "split-cdata-end:control"),
+    ("cd_e2", u"]]" + ESC + u">", "split-cdata-end:control"),
+    ("cd_gt", u"]]&" + ESC + u"[0mgt;", "split-cdata-end:ansi"),
+    ("ansi_c1", ESC + u"\x01[31m", "split-ansi:control"),
+    ("ansi_c2", ESC + u"[3\x011m", "split-ansi:control"),
+    ("ansi_in", ESC + u"[" + ESC + u"[0m31m", "split-ansi:ansi"),
+    ("amp_m", u"&" + ESC + u"[0mlt;", "meta-next-to-removed"),
+    ("amp_c", u"&\x01amp;", "meta-next-to-removed"),
+    ("ref_m", u"&#" + ESC + u"[0m1;", "meta-next-to-removed"),
+    ("lt_m", u"<" + ESC + u"[0m!--", "meta-next-to-removed"),
+    ("quot_m", u"\"" + ESC + u"[0m>", "meta-next-to-removed"),
+)
+QUICK_COMPOSITE_SHAPES = ("mixed", "hooks")
+ATOM = {a[0]: a for a in ATOMS + COMPOSITES}
 QUICK_PAIR_ATOMS = ("lt", "cdend", "soh", "ansi2", "fffe", "astral")
 ROUNDTRIP_CLASSES = ("xml-meta", "cdata-end", "astral", "non-ascii")
 SLOTS = ("feature-name", "scenario-name", "step-name", "tag", "assertion-message", "exception-message",
@@ -596,7 +624,7 @@ def blame(raw, e, attr, info):
         ch = raw[pos: pos + 4].decode("utf-8", "ignore")[:1]
         cands = [(s, a) for s, a in assigned if ch and ch in ATOM[a][1] and ch not in u"<&\">]"]
         if not cands and b"]]>" in raw[max(0, pos - 4): pos + 4]:
-            cands = [(s, a) for s, a in assigned if ATOM[a][2] == "cdata-end"]
+            cands = [(s, a) for s, a in assigned if "cdata-end" in ATOM[a][2]]
         cands = cands or assigned
     order = ATTR_SLOTS.get(attr, ())
     cands = sorted(cands, key=lambda sa: order.index(sa[0]) if sa[0] in order else len(order))
@@ -920,6 +948,16 @@ def single_cases():
                     yield (shape, ((slot, aid),), show, None)
 
 
+def composite_cases(tier):
+    """every (slot, composite atom) single; quick: on the two shapes that together hold all ten slots, skipped shown"""
+    quick = tier == "quick"
+    for slot in SLOTS:
+        for aid, _, _ in COMPOSITES:
+            for shape in (QUICK_COMPOSITE_SHAPES if quick else SINGLE_SHAPES):
+                for show in ((True,) if quick else (True, False)):
+                    yield (shape, ((slot, aid),), show, None)
+
+
 def pair_cases(tier):
     atoms = QUICK_PAIR_ATOMS if tier == "quick" else tuple(a[0] for a in ATOMS)
     for s1, s2 in itertools.combinations(SLOTS, 2):
@@ -945,7 +983,8 @@ def run(ctx):
                   "slots": len(SLOTS), "atoms": len(ATOMS), "single_shapes": len(SINGLE_SHAPES),
                   "pair_atoms": len(QUICK_PAIR_ATOMS) if ctx.quick else len(ATOMS),
                   "switch_combinations": 128, "switch_shapes": len(SWITCH_SHAPES),
-                  "addressing_modes": len(ADDR_MODES)}
+                  "addressing_modes": len(ADDR_MODES), "composite_atoms": len(COMPOSITES),
+                  "composite_shapes": len(QUICK_COMPOSITE_SHAPES) if ctx.quick else len(SINGLE_SHAPES)}
     ctx.sweep(run_hostile, single_cases(), chunk=16, name="hostile singles (slot x atom x shape x show_skipped)")
     seen = set()
     for out in ctx.outcomes:
@@ -953,6 +992,8 @@ def run(ctx):
     ctx.note("slots_seen_in_documents", sorted(seen))
     ctx.guard(len(seen) == len(SLOTS), "an XML-legal atom of every one of the ten slots arrived in a parsed document "
                                        "(seen: %s)" % sorted(seen))
+    ctx.sweep(run_hostile, composite_cases(ctx.tier), chunk=16,
+              name="composite atoms (one filter pass creating another pass's token) x slot")
     ctx.sweep(run_addressed, addressed_cases(), chunk=4, name="feature files on disk x how they are addressed (real Runner)")
     ctx.sweep(run_hostile, switch_cases(), chunk=16, name="128 userdata switch combinations x 3 shapes")
     ctx.sweep(run_hostile, pair_cases(ctx.tier), chunk=32, name="hostile pairs on the small shape")
